@@ -356,17 +356,25 @@ pub fn with_lint_attrs(ts: proc_macro2::TokenStream, item_attrs: &[syn::Attribut
     use quote::quote;
     let allows: Vec<_> = item_attrs
         .iter()
-        .filter(|a| a.path().is_ident("allow"))
+        .filter(|a| a.path().is_ident("allow") && matches!(a.style, syn::AttrStyle::Outer))
         .collect();
-    let extra = quote!(#[allow(deprecated)] #(#allows)*);
+    // `non_snake_case`: bindings are named after fields (`__l__marker`); `unused_braces`: `Ty<{ N }>`
+    let extra = quote!(#[allow(deprecated, non_snake_case, unused_braces)] #(#allows)*);
     let input: Vec<TokenTree> = ts.into_iter().collect();
     let mut out = Vec::new();
     for (i, t) in input.iter().enumerate() {
         let is_marker = matches!(t, TokenTree::Group(g) if g.delimiter() == Delimiter::Bracket
             && g.stream().to_string() == "automatically_derived")
             && matches!(out.last(), Some(TokenTree::Punct(p)) if p.as_char() == '#');
+        // (an item `const _: .. = ..;`, not the `*const _` of a pointer type: it starts the stream or follows an item)
         let is_anonymous_const = matches!(t, TokenTree::Ident(c) if c == "const")
-            && matches!(input.get(i + 1), Some(TokenTree::Ident(u)) if u == "_");
+            && matches!(input.get(i + 1), Some(TokenTree::Ident(u)) if u == "_")
+            && match out.last() {
+                None => true,
+                Some(TokenTree::Group(g)) => g.delimiter() == Delimiter::Brace,
+                Some(TokenTree::Punct(p)) => p.as_char() == ';',
+                _ => false,
+            };
         if is_anonymous_const {
             out.extend(extra.clone());
         }
